@@ -46,6 +46,9 @@ var sdkEnvNames = map[string][]string{
 const inconcl = "INCONCLUSIVE:"
 
 func runSDKCase(c Case, conc *Conc) Outcome {
+	if c.Ctx.Kind != "" && c.Ctx.Kind != "none" {
+		return runStructCase(c, conc)
+	}
 	var out Outcome
 	names := sdkEnvNames[c.Setting]
 	for i, s := range c.Srcs[1:] {
@@ -473,8 +476,7 @@ func manyAttrs(n int) []attribute.KeyValue {
 }
 
 func observeSpanLimit(setting string, optV int, hasOpt bool, conc *Conc) ([]string, string) {
-	exp := &capSpans{}
-	opts := []sdktrace.TracerProviderOption{sdktrace.WithSyncer(exp), sdktrace.WithSampler(sdktrace.AlwaysSample())}
+	var opts []sdktrace.TracerProviderOption
 	if hasOpt {
 		// documented way: start from NewSpanLimits() (environment / defaults) and update the field
 		lim := sdktrace.NewSpanLimits()
@@ -494,6 +496,14 @@ func observeSpanLimit(setting string, optV int, hasOpt bool, conc *Conc) ([]stri
 		}
 		opts = append(opts, sdktrace.WithRawSpanLimits(lim))
 	}
+	return offerSpan(setting, conc, opts...)
+}
+
+// offerSpan builds a TracerProvider with the given options, offers one span more of the limited
+// resource than any configured limit and reports how much was kept.
+func offerSpan(setting string, conc *Conc, extra ...sdktrace.TracerProviderOption) ([]string, string) {
+	exp := &capSpans{}
+	opts := append([]sdktrace.TracerProviderOption{sdktrace.WithSyncer(exp), sdktrace.WithSampler(sdktrace.AlwaysSample())}, extra...)
 	tp := sdktrace.NewTracerProvider(opts...)
 	ctx := context.Background()
 	_, span := tp.Tracer("c20").Start(ctx, "s")
@@ -545,6 +555,9 @@ func observeSpanLimit(setting string, optV int, hasOpt bool, conc *Conc) ([]stri
 			n = len(ro.Links()[0].Attributes)
 		}
 	}
+	if n < 0 {
+		return []string{"unobservable"}, "the carrier (attribute / event / link) of the observed limit was not recorded"
+	}
 	return conc.absCount(setting, n, offered), fmt.Sprintf("kept=%d of %d", n, offered)
 }
 
@@ -571,8 +584,7 @@ func (p *capProc) Shutdown(context.Context) error   { return nil }
 func (p *capProc) ForceFlush(context.Context) error { return nil }
 
 func observeLogLimit(setting string, optV int, hasOpt bool, conc *Conc) ([]string, string) {
-	proc := &capProc{vlen: -1}
-	opts := []sdklog.LoggerProviderOption{sdklog.WithProcessor(proc)}
+	var opts []sdklog.LoggerProviderOption
 	if hasOpt {
 		switch setting {
 		case "logrecord.attr_count":
@@ -581,6 +593,12 @@ func observeLogLimit(setting string, optV int, hasOpt bool, conc *Conc) ([]strin
 			opts = append(opts, sdklog.WithAttributeValueLengthLimit(optV))
 		}
 	}
+	return offerLog(setting, conc, opts...)
+}
+
+func offerLog(setting string, conc *Conc, extra ...sdklog.LoggerProviderOption) ([]string, string) {
+	proc := &capProc{vlen: -1}
+	opts := append([]sdklog.LoggerProviderOption{sdklog.WithProcessor(proc)}, extra...)
 	lp := sdklog.NewLoggerProvider(opts...)
 	ctx := context.Background()
 	var r otellog.Record
@@ -603,6 +621,9 @@ func observeLogLimit(setting string, optV int, hasOpt bool, conc *Conc) ([]strin
 	n := proc.nattrs
 	if setting == "logrecord.attr_len" {
 		n = proc.vlen
+		if n < 0 {
+			return []string{"unobservable"}, "the attribute carrying the long value was not recorded"
+		}
 	}
 	return conc.absCount(setting, n, offered), fmt.Sprintf("kept=%d of %d", n, offered)
 }
@@ -790,5 +811,75 @@ func runSamplerCase(c Case, conc *Conc) Outcome {
 	if len(out.Obs) == 0 {
 		out.Obs = []string{"?" + vec}
 	}
+	return out
+}
+
+// ---------------------------------------------------------------- struct-valued options
+
+var (
+	spanFields = []string{"span.attr_count", "span.attr_len", "span.event_count", "span.link_count",
+		"span.event_attr_count", "span.link_attr_count"}
+	logFields = []string{"logrecord.attr_count", "logrecord.attr_len"}
+)
+
+// fieldValue: concrete value of a struct field of the given class.
+func fieldValue(setting, class string, conc *Conc) int {
+	switch class {
+	case "zero":
+		return 0
+	case "neg":
+		return conc.pickInt([]int{-1, -7, -1 << 31})
+	}
+	return conc.numVal(setting, "O")
+}
+
+// runStructCase passes the LITERAL struct described by c.Ctx (every field, also the zero-valued
+// ones) through WithRawSpanLimits / WithSpanLimits / the two log record options, sets the
+// field-specific variable of every field as c.Ctx.Env says and observes the field c.Setting.
+func runStructCase(c Case, conc *Conc) Outcome {
+	var out Outcome
+	fields := spanFields
+	if c.Ctx.Kind == "logopts" {
+		fields = logFields
+	}
+	vals := map[string]int{}
+	var optText []string
+	for i, f := range fields {
+		vals[f] = fieldValue(f, c.Ctx.Fields[i], conc)
+		optText = append(optText, fmt.Sprintf("%s=%d", f, vals[f]))
+		if v, ok := conc.envNum(f, c.Ctx.Env); ok {
+			os.Setenv(sdkEnvNames[f][0], v)
+			out.Env = append(out.Env, sdkEnvNames[f][0]+"="+v)
+		}
+	}
+	out.Opt = c.Ctx.Kind + "{" + strings.Join(optText, " ") + "}"
+	var obs []string
+	var detail string
+	err, special := guarded(watchdog, func() error {
+		if c.Ctx.Kind == "logopts" {
+			obs, detail = offerLog(c.Setting, conc, sdklog.WithAttributeCountLimit(vals["logrecord.attr_count"]),
+				sdklog.WithAttributeValueLengthLimit(vals["logrecord.attr_len"]))
+			return nil
+		}
+		lim := sdktrace.SpanLimits{
+			AttributeCountLimit:         vals["span.attr_count"],
+			AttributeValueLengthLimit:   vals["span.attr_len"],
+			EventCountLimit:             vals["span.event_count"],
+			LinkCountLimit:              vals["span.link_count"],
+			AttributePerEventCountLimit: vals["span.event_attr_count"],
+			AttributePerLinkCountLimit:  vals["span.link_attr_count"],
+		}
+		opt := sdktrace.WithRawSpanLimits(lim)
+		if c.Ctx.Kind == "nonraw" {
+			opt = sdktrace.WithSpanLimits(lim)
+		}
+		obs, detail = offerSpan(c.Setting, conc, opt)
+		return nil
+	})
+	if special != "" {
+		out.Obs, out.Detail = []string{special}, errText(err)
+		return out
+	}
+	out.Obs, out.Detail = obs, detail
 	return out
 }
